@@ -130,7 +130,11 @@ pub fn same_image(a: &tiny_skia::Pixmap, b: &tiny_skia::Pixmap, tol: u8) -> (boo
 }
 
 /// feature probes (content placed over a sand-coloured backdrop)
-const PROBES: [&str; 44] = [
+const PROBES: [&str; 48] = [
+    r###"<pattern id="pv1" viewBox="0 0 4 4" width="0.25" height="0.25" patternContentUnits="objectBoundingBox"><rect width="2" height="2" fill="#d00"/><rect x="2" y="2" width="2" height="2" fill="#00d"/></pattern><rect x="15" y="15" width="80" height="60" fill="url(#pv1)"/>"###,
+    r###"<pattern id="pv2" viewBox="0 0 4 4" width="20" height="16" patternUnits="userSpaceOnUse" patternContentUnits="objectBoundingBox" preserveAspectRatio="none"><rect width="2" height="2" fill="#d00"/><rect x="2" y="2" width="2" height="2" fill="#00d"/></pattern><rect x="15" y="15" width="80" height="60" fill="none" stroke="url(#pv2)" stroke-width="14"/>"###,
+    r###"<clipPath id="shc"><rect width="120" height="100"/></clipPath><clipPath id="inc"><circle cx="70" cy="60" r="18"/></clipPath><g clip-path="url(#shc)"><rect x="5" y="5" width="20" height="20" fill="#080"/></g><g clip-path="url(#shc)"><rect x="40" y="30" width="70" height="60" fill="#c0c" clip-path="url(#inc)"/></g>"###,
+    r###"<mask id="shm" maskUnits="userSpaceOnUse" x="0" y="0" width="120" height="100" maskContentUnits="userSpaceOnUse"><rect width="120" height="100" fill="white"/></mask><linearGradient id="ing" x2="0" y2="1"><stop offset="0" stop-color="#f00"/><stop offset="1" stop-color="#00f"/></linearGradient><g mask="url(#shm)"><rect x="5" y="5" width="20" height="20" fill="#080"/></g><g mask="url(#shm)"><g visibility="hidden"><rect x="40" y="30" width="70" height="60" fill="url(#ing)" visibility="visible"/></g></g>"###,
     r###"<g style="isolation:isolate"><rect x="20" y="20" width="60" height="50" fill="#08f" style="mix-blend-mode:multiply"/></g>"###,
     r###"<g style="mix-blend-mode:difference"><rect x="20" y="20" width="60" height="50" fill="#08f"/></g>"###,
     r###"<g style="mix-blend-mode:screen;isolation:isolate" opacity="0.8"><circle cx="60" cy="50" r="30" fill="#f40"/></g>"###,
